@@ -12,11 +12,18 @@
    type, with no condition on the descriptor: unpack (pack m1 ++ pack m2) = merge_messages m1 m2, both succeeding.
    The input is at most max_input = 268435425 bytes long (beyond that protobuf_c_message_unpack may run out of
    ScannedMember slabs: Proofs/MemberCount.v).  The pair that used to separate the two sides -- a required
-   sub-message sent twice -- is the non-vacuity example. *)
+   sub-message sent twice -- is the non-vacuity example.
+   AS PROTOBUF PRESCRIBES, for every valid encoding (Impl/SpecParse.v, Proofs/SpecRules.v, Proofs/SpecRefine0-5.v): the
+   specification-level parser folds the records in order, and what one step does to a field that has occurred before is
+   spelled out rule by rule -- a singular field takes the last value whatever it held, a further occurrence of a
+   singular sub-message is merged into the one held, a repeated field keeps its elements and appends the new ones, a
+   oneof member replaces the member chosen before, an unknown record is retained after the earlier ones -- and
+   protobuf_c_message_unpack returns exactly the specification's reading whenever there is one. *)
 From Coq Require Import ZArith List Bool.
 From PBC Require Import Base.CInt Impl.Desc Impl.Mem Impl.Enc Impl.Pack Impl.Unpack Impl.Canon Proofs.Merge Proofs.Shape Proofs.MergeSafe Proofs.UnpackSafe
      Proofs.ConcatMerge.
-From PBC Require Proofs.LeafSafe.
+From PBC Require Import Spec.WireMsg Spec.WireRaw Impl.SpecParse.
+From PBC Require Proofs.LeafSafe Proofs.SpecRules Proofs.SpecRefine5.
 Import ListNotations.
 Local Open Scope Z_scope.
 
@@ -159,3 +166,58 @@ Theorem C10_concatenation_required_submessage_example :
       Ok (Msg 0 [SOne 0 (VMsg (Some (Msg 1 [SOne 1 (VWord 5); SOne 1 (VWord 7)] [] [])))] [] []).
 Proof. exact required_submessage_example. Qed.
 Print Assumptions C10_concatenation_required_submessage_example.
+
+(* ---- as protobuf prescribes: the rules of the specification-level parser, and the implementation follows them *)
+Theorem C10_spec_last_one_wins : forall E sub md r d slots unions unk i f h old,
+  field_index md (rr_num r) = Some i -> nth_error (md_fields md) i = Some f ->
+  nth_error slots i = Some (SOne h old) -> f_label f <> LRepeated -> f_type f <> TMessage ->
+  spec_record E sub md r (Msg d slots unions unk) =
+  match cell_of E sub f (rr_pay r) None with
+  | Some v => Some (Msg d (set_nth slots i (SOne (SpecRules.has_after f h) v)) unions unk)
+  | None => None
+  end.
+Proof. exact SpecRules.rule_last_one_wins. Qed.
+Print Assumptions C10_spec_last_one_wins.
+
+Theorem C10_spec_submessage_occurrences_merge : forall E sub md r d slots unions unk i f h m1 bs m2 mm,
+  field_index md (rr_num r) = Some i -> nth_error (md_fields md) i = Some f ->
+  nth_error slots i = Some (SOne h (VMsg (Some m1))) -> f_label f <> LRepeated -> f_type f = TMessage ->
+  rr_pay r = PLen bs -> sub (f_sub f) bs = Some m2 -> merge_messages E m1 m2 = Ok mm ->
+  spec_record E sub md r (Msg d slots unions unk) =
+  Some (Msg d (set_nth slots i (SOne (SpecRules.has_after f h) (VMsg (Some mm)))) unions unk).
+Proof. exact SpecRules.rule_submessage_merged. Qed.
+Print Assumptions C10_spec_submessage_occurrences_merge.
+
+Theorem C10_spec_repeated_fields_concatenate : forall E sub md r d slots unions unk i f n cap l m',
+  field_index md (rr_num r) = Some i -> nth_error (md_fields md) i = Some f ->
+  nth_error slots i = Some (SRep n cap (Some l)) -> f_label f = LRepeated ->
+  spec_record E sub md r (Msg d slots unions unk) = Some m' ->
+  exists vs, m' = Msg d (set_nth slots i (match vs with
+                                          | [] => SRep n cap (Some l)
+                                          | _ => SRep (n + zlen vs) (n + zlen vs) (Some (l ++ vs))
+                                          end)) unions unk.
+Proof. exact SpecRules.rule_repeated_appended. Qed.
+Print Assumptions C10_spec_repeated_fields_concatenate.
+
+Theorem C10_spec_oneof_member_replaced : forall E sub md r d slots unions unk i f g case cell m',
+  field_index md (rr_num r) = Some i -> nth_error (md_fields md) i = Some f ->
+  nth_error slots i = Some (SUnion g) -> f_label f <> LRepeated -> nth_error unions g = Some (case, cell) ->
+  spec_record E sub md r (Msg d slots unions unk) = Some m' ->
+  exists v, m' = Msg d slots (set_nth unions g (rr_num r, v)) unk /\
+            cell_of E sub f (rr_pay r) (if case =? rr_num r then old_msg cell else None) = Some v.
+Proof. exact SpecRules.rule_oneof_replaced. Qed.
+Print Assumptions C10_spec_oneof_member_replaced.
+
+Theorem C10_spec_unknown_retained_in_order : forall E sub md r d slots unions unk,
+  field_index md (rr_num r) = None ->
+  spec_record E sub md r (Msg d slots unions unk) =
+  Some (Msg d slots unions (unk ++ [{| u_tag := rr_num r; u_wt := wt_of (rr_pay r); u_data := rr_raw r |}])).
+Proof. exact SpecRules.rule_unknown_retained. Qed.
+Print Assumptions C10_spec_unknown_retained_in_order.
+
+(* the implementation returns exactly what the fold of these steps yields, for every input the specification reads *)
+Theorem C10_unpack_follows_the_prescribed_rules : forall (E : env) (d : nat) (b : list Z) (m : msg),
+  env_ok E = true -> LeafSafe.bytes b -> zlen b <= 268435425 ->
+  spec_parse_top E d b = Some m -> unpack_top E d b = Ok m.
+Proof. exact SpecRefine5.spec_parse_refined. Qed.
+Print Assumptions C10_unpack_follows_the_prescribed_rules.
